@@ -45,23 +45,23 @@ type elem struct {
 // peer is the scripted remote entity: it parses everything the session writes
 // and feeds stanzas in order.
 type peer struct {
-	rs      *common.RawSession
-	ctl     *c06.Ctl
-	h       *ibb.Handler
-	feedCh  chan []byte
-	in      chan elem
-	pw      *io.PipeWriter
-	done    chan struct{} // closed by stop
-	dataErr   bool   // answer data IQs with an error
-	closeMode string // how the peer answers <close/>: "" result, "err" error, "silent" not at all
-	openSilent bool // the peer does not answer <open/> at all
-	openOK  bool   // answer of the peer to an <open/> request
-	packets []pkt  // data stanzas tapped from the session
-	replies map[string]string
-	closes  int
-	onClose func() // called when the session's <close/> arrives, before it is answered
-	nsync   int
-	reqIDs  []string // ids of the open / data / close requests the session sent
+	rs         *common.RawSession
+	ctl        *c06.Ctl
+	h          *ibb.Handler
+	feedCh     chan []byte
+	in         chan elem
+	pw         *io.PipeWriter
+	done       chan struct{} // closed by stop
+	dataErr    bool          // answer data IQs with an error
+	closeMode  string        // how the peer answers <close/>: "" result, "err" error, "silent" not at all
+	openSilent bool          // the peer does not answer <open/> at all
+	openOK     bool          // answer of the peer to an <open/> request
+	packets    []pkt         // data stanzas tapped from the session
+	replies    map[string]string
+	closes     int
+	onClose    func() // called when the session's <close/> arrives, before it is answered
+	nsync      int
+	reqIDs     []string // ids of the open / data / close requests the session sent
 }
 
 type pkt struct {
@@ -293,6 +293,96 @@ type rop struct {
 	attr    string // the seq attribute as written on the wire (if raw), when it is not the plain decimal of seq
 	raw     bool
 	tail    []rop // kind 'C': data packets of the peer that arrive while Close waits for the answer
+	segs    []seg // kind 'd': how the body of the <data/> element is serialised (nil: one piece of plain text)
+}
+
+// seg is one piece of the serialised body of a <data/> element.  The payload of the packet is the
+// character data of the element: what the pieces of kind T, C and E contribute, concatenated.
+//
+//	T plain text    C a CDATA section    E numeric character references (one per byte)
+//
+// (Comments and processing instructions are refused by the session itself - restricted XML - and
+// are not generated.)
+type seg struct {
+	kind byte
+	text string
+}
+
+func segsText(ss []seg) string {
+	var b strings.Builder
+	for _, s := range ss {
+		b.WriteString(s.text)
+	}
+	return b.String()
+}
+
+func segsWire(ss []seg) string {
+	var b strings.Builder
+	for _, s := range ss {
+		switch s.kind {
+		case 'T':
+			b.WriteString(s.text)
+		case 'C':
+			b.WriteString("<![CDATA[" + s.text + "]]>")
+		case 'E':
+			for i, c := range []byte(s.text) {
+				if i%2 == 0 {
+					fmt.Fprintf(&b, "&#%d;", c)
+				} else {
+					fmt.Fprintf(&b, "&#x%X;", c)
+				}
+			}
+		}
+	}
+	return b.String()
+}
+
+func segsTok(ss []seg) string {
+	var t []string
+	for _, s := range ss {
+		t = append(t, string(s.kind)+common.HexS(s.text))
+	}
+	return strings.Join(t, "+")
+}
+
+// parsePayloadTok: the payload field of a `d:` token: plain hex (one piece of text) or pieces
+// `<K><hex>` joined by `+`.
+func parsePayloadTok(f string) (string, []seg) {
+	if f == "" || f == "-" || !strings.ContainsAny(f[:1], "TCE") {
+		b, _ := common.UnHex(f)
+		return string(b), nil
+	}
+	var ss []seg
+	for _, t := range strings.Split(f, "+") {
+		if t == "" {
+			continue
+		}
+		b, _ := common.UnHex(t[1:])
+		ss = append(ss, seg{t[0], string(b)})
+	}
+	return segsText(ss), ss
+}
+
+// segmented: the same packet with its body serialised in the given pieces.
+func (o rop) segmented(ss []seg) rop {
+	o.segs = ss
+	o.payload = segsText(ss)
+	return o
+}
+
+// body: the content of the <data/> element on the wire.
+func (o rop) body() string {
+	if o.segs != nil {
+		return segsWire(o.segs)
+	}
+	return o.payload
+}
+
+func (o rop) payTok() string {
+	if o.segs != nil {
+		return segsTok(o.segs)
+	}
+	return common.HexS(o.payload)
 }
 
 // seqText: the seq attribute on the wire.
@@ -321,9 +411,9 @@ func (o rop) tok() string {
 	switch o.kind {
 	case 'd':
 		if _, ok := canonicalSeq(o.seqText()); !ok {
-			return fmt.Sprintf("d:%s:x%s:%s", common.B(o.known), common.HexS(o.seqText()), common.HexS(o.payload))
+			return fmt.Sprintf("d:%s:x%s:%s", common.B(o.known), common.HexS(o.seqText()), o.payTok())
 		}
-		return fmt.Sprintf("d:%s:%s:%s", common.B(o.known), o.seqText(), common.HexS(o.payload))
+		return fmt.Sprintf("d:%s:%s:%s", common.B(o.known), o.seqText(), o.payTok())
 	case 'r':
 		return fmt.Sprintf("r:%d", o.n)
 	case 'b':
@@ -383,9 +473,9 @@ func runRecv(r *common.Run, maxbuf0 int, carrier string, ops []rop, class string
 		}
 		delete(p.replies, "msgerr")
 		if o.msg {
-			p.feed(fmt.Sprintf(`<message xmlns="jabber:client" id="%s" from="%s" to="me@example.net/h"><data xmlns="http://jabber.org/protocol/ibb" seq="%s" sid="%s">%s</data></message>`, id, peerJID, xmlAttr(o.seqText()), sid, o.payload))
+			p.feed(fmt.Sprintf(`<message xmlns="jabber:client" id="%s" from="%s" to="me@example.net/h"><data xmlns="http://jabber.org/protocol/ibb" seq="%s" sid="%s">%s</data></message>`, id, peerJID, xmlAttr(o.seqText()), sid, o.body()))
 		} else {
-			p.feed(fmt.Sprintf(`<iq xmlns="jabber:client" type="set" id="%s" from="%s" to="me@example.net/h"><data xmlns="http://jabber.org/protocol/ibb" seq="%s" sid="%s">%s</data></iq>`, id, peerJID, xmlAttr(o.seqText()), sid, o.payload))
+			p.feed(fmt.Sprintf(`<iq xmlns="jabber:client" type="set" id="%s" from="%s" to="me@example.net/h"><data xmlns="http://jabber.org/protocol/ibb" seq="%s" sid="%s">%s</data></iq>`, id, peerJID, xmlAttr(o.seqText()), sid, o.body()))
 		}
 		return id
 	}
@@ -425,6 +515,8 @@ func runRecv(r *common.Run, maxbuf0 int, carrier string, ops []rop, class string
 			r.Fail("refuse", "oversize-packet-accepted", line(), fmt.Sprintf("the receive buffer is limited to %d bytes (as requested, raised only to the block size), %d are buffered, a packet of %d bytes was acknowledged instead of refused with resource-constraint", maxbuf, unread, len(dec)))
 		case code == "ack" && derr != nil:
 			r.Fail("refuse", "undecodable-packet-accepted", line(), fmt.Sprintf("payload %q acknowledged", o.payload))
+		case code != "ack" && valid && inSeq && isCanonical(o.seqText()) && len(o.segs) > 1:
+			r.Fail("deliver", "valid-packet-serialised-in-several-pieces-refused", line(), fmt.Sprintf("packet seq %d is valid and in sequence; the character data of its <data/> element (%q, serialised as %s) is the base64 text %q; it was answered %s", o.seq, o.body(), segsTok(o.segs), o.payload, code))
 		case code != "ack" && valid && inSeq && isCanonical(o.seqText()) && during != "":
 			r.Fail("deliver", "packet-in-flight-at-local-close-refused", line(), fmt.Sprintf("local Close had sent its <close/> and was waiting for the answer; packet seq %d (%q) of the peer, valid and in sequence, sent before the peer answered (what it had written and flushes when it handles the close), was answered %s: bytes the peer wrote are lost", o.seq, o.payload, code))
 		case code != "ack" && valid && inSeq && isCanonical(o.seqText()):
@@ -1349,6 +1441,7 @@ func runListener(r *common.Run, ops []string, class string) {
 		return
 	}
 	defer p.stop()
+	baseE, baseA := blockedIn(fnExpect), blockedIn(fnAccept) // left over from cases that stalled
 	var ln *ibb.Listener
 	listening := false
 	type acc struct {
@@ -1358,7 +1451,7 @@ func runListener(r *common.Run, ops []string, class string) {
 	accCh := make(chan acc, 64)
 	expCh := make(chan acc, 8)
 	var expCancel context.CancelFunc
-	expecting := -1   // number of the open request the waiting Expect call asked for
+	expecting := -1 // number of the open request the waiting Expect call asked for
 	// the waiting Expect call returns now (its outcome is caused by the op at index idx)
 	collectExpect := func(obs []string, idx int, line func() []string) {
 		select {
@@ -1458,7 +1551,10 @@ func runListener(r *common.Run, ops []string, class string) {
 				obs[pendingOpen] = reply(pendingID)
 				pendingOpen = -1
 			default:
-				time.Sleep(200 * time.Microsecond) // let it reach its select
+				// no sleep: the call has reached its select when the goroutine dump says so
+				if !waitBlocked(fnAccept, baseA, waiting) {
+					r.Notes = append(r.Notes, "listener: an Accept call did not reach its wait")
+				}
 			}
 		case 'E':
 			if ln == nil {
@@ -1480,7 +1576,10 @@ func runListener(r *common.Run, ops []string, class string) {
 				break
 			}
 			expCancel, expecting = cancel, nOpen+1
-			time.Sleep(300 * time.Microsecond) // let it register
+			// no sleep: the call has registered its entry when it is blocked in its select
+			if !waitBlocked(fnExpect, baseE, 1) {
+				r.Notes = append(r.Notes, "listener: an Expect call did not reach its wait")
+			}
 		case 'X':
 			if expecting < 0 {
 				toks = toks[:len(toks)-1]
